@@ -848,3 +848,83 @@ def rule_descflow():
     if not sites:
         failing.append("description parameter not found (contract unbound)")
     return not failing, sites, failing
+
+
+# ---------------------------------------------------------------------------------------------- dispatch completeness (C03 / C12)
+def rule_dispatch():
+    """every element of the real constants _nary_ops / _delimiters_front has a handler in parse()'s if-chains: the `else: raise AssertionError()`
+    arms are unreachable. Decided by evaluating the (closed) chain tests on each element of the constants read from the real module."""
+    import importlib
+
+    M = importlib.import_module("einx._src.namedtensor.stage1.parse")
+    tree, p = parse("einx/_src/namedtensor/stage1/parse.py")
+    fn = find_func(tree, "parse_op")
+    sites, failing = [], []
+
+    def chain_arms(ifnode):
+        arms = []
+        n = ifnode
+        while True:
+            arms.append((n.test, n.body))
+            if len(n.orelse) == 1 and isinstance(n.orelse[0], ast.If):
+                n = n.orelse[0]
+            else:
+                arms.append((None, n.orelse))
+                break
+        return arms
+
+    def is_assert_raise(body):
+        return len(body) == 1 and isinstance(body[0], ast.Raise) and "AssertionError" in ast.unparse(body[0])
+
+    found = 0
+    elif_nodes = {id(n.orelse[0]) for n in ast.walk(fn) if isinstance(n, ast.If) and len(n.orelse) == 1 and isinstance(n.orelse[0], ast.If)}
+    for n in ast.walk(fn):
+        if not isinstance(n, ast.If) or id(n) in elif_nodes:
+            continue
+        arms = chain_arms(n)
+        if not (arms[-1][0] is None and is_assert_raise(arms[-1][1])):
+            continue
+        tests = [ast.unparse(t) for t, _ in arms[:-1]]
+        # which variable does the chain dispatch on, and over which constant does it range?
+        if all(t.startswith("nary_op == ") for t in tests):
+            dom, var = list(M._nary_ops), "nary_op"
+        elif all(t.startswith("in_tokens[0].text == ") for t in tests):
+            dom, var = sorted(M._delimiters_front), "in_tokens[0].text"
+        else:
+            continue  # type-dispatch chains over node classes are not part of this obligation
+        found += 1
+        handled = set()
+        for t, _ in arms[:-1]:
+            c = t.value if False else t
+            lit = ast.literal_eval(c.comparators[0]) if isinstance(c, ast.Compare) and isinstance(c.comparators[0], ast.Constant) else None
+            handled.add(lit)
+        for v in dom:
+            site = f"{rel(p)}:{n.lineno}:{var} == {v!r}"
+            sites.append(site)
+            if v not in handled:
+                failing.append(site + " has no handler: the chain falls through to `raise AssertionError()`")
+    if found < 2:
+        failing.append(f"{rel(p)}: expected the operator chain and the delimiter chain of parse() (found {found}); contract unbound")
+    # and: every literal the lexer accepts is a delimiter, an operator with a handler, or the ellipsis
+    lits = set(M._literals)
+    other = lits - set(M._nary_ops) - set(M._delimiters_front) - set(M._delimiters_back) - {M._ellipsis}
+    if other:
+        failing.append(f"{rel(p)}: literals {sorted(other)} are lexed but belong to no syntactic class")
+    return not failing, sites, failing
+
+
+def rule_update_registrations():
+    """C14.S.bcast_registered: in the numpy adapter every update_at(...) registration passes broadcast= (np.put cycles, np.add.at needs equal shapes)"""
+    tree, p = parse("einx/_src/adapter/numpy/classical_from_numpy.py")
+    cls = find_class(tree, "ops")
+    sites, failing = [], []
+    for n in ast.walk(cls):
+        if isinstance(n, ast.Call) and ast.unparse(n.func).endswith("classical_from_numpy.update_at"):
+            site = f"{rel(p)}:{n.lineno}:{ast.unparse(n)[:70]}"
+            sites.append(site)
+            kws = {k.arg for k in n.keywords}
+            if "broadcast" not in kws:
+                failing.append(site + " (no broadcast= : indices and updates reach the scatter primitive with different shapes)")
+    if len(sites) != 3:
+        failing.append(f"{rel(p)}: expected 3 update_at registrations, found {len(sites)}")
+    return not failing, sites, failing
